@@ -15,11 +15,15 @@ import shutil
 from . import common as C
 from .gitsim import Sim
 
-GEN_FILES = ["GenProxy"]
+GEN_FILES = ["GenProxy", "GenInternalGit"]
 DRIVERS = []
-THEOREMS = ["C06_status", "C06_argv_and_hooks_path", "C06_hooks_override_spec", "C06_nonvacuous"]
+THEOREMS = ["C06_status", "C06_argv_and_hooks_path", "C06_hooks_override_spec", "C06_nonvacuous",
+            "C06_internal_sites_classified", "C06_dynamic_sites_exist", "C06_site_classes_inhabited"]
 CLAIM = {
-    "text": "Partial proof. Theorems (closed, for all behaviours of hook bodies and of the child): the status the caller sees is "
+    "text": "Partial proof. Every internal git call site of the source (inventory regenerated on every run) is read-only, "
+            "object-store-only, spelled out on refs/notes/ai*, CI-only, or one of the listed dynamic-target sites that the argv "
+            "log monitors at run time (C06_internal_sites_classified: finite domain decided by computation and lifted). "
+            "Theorems (closed, for all behaviours of hook bodies and of the child): the status the caller sees is "
             "the child's (C06_status); git is spawned with the user's vector as parsed/re-emitted (C18) or the alias-resolved "
             "vector, preceded by `-c core.hooksPath=<previous dir or /dev/null>` only for hooked commands in repositories with "
             "managed hooks and never against an explicit override (C06_argv_and_hooks_path, C06_hooks_override_spec). The skeleton "
